@@ -49,6 +49,7 @@ fn any_rec(t: u8) -> Rec {
 fn new_store() -> Store {
     let mut s = Store::new();
     s.records = Vec::with_capacity(MAXN);
+    s.index.borrow_mut().verif_presize(MAXN);
     s
 }
 
@@ -102,6 +103,62 @@ fn agree(live: &Store, sh: &Shadow) {
     std::mem::forget(fresh); std::mem::forget(top_live); std::mem::forget(top_fresh);
 }
 
+/// Abstract state and the EMPTY-query candidates only (no index lookups): cheaper than `agree`.
+fn agree_top(live: &Store, sh: &Shadow) {
+    assert!(live.records.len() == sh.n, "C10: store does not hold the records that were added since the last clear");
+    let mut i = 0;
+    while i < sh.n {
+        assert!(live.records[i].id == sh.recs[i].id && live.records[i].rating == sh.recs[i].rating && live.records[i].ix == i,
+                "C10/C02: record at a position is not the record added there");
+        i += 1;
+    }
+    assert!(live.limit == sh.limit, "C10: limit lost");
+    let fresh = fresh_from(sh);
+    let top_live = live.verif_top_ixs();
+    let top_fresh = fresh.verif_top_ixs();
+    let mut i = 0;
+    while i < top_live.len() { assert!(top_live[i] < sh.n, "C10/C02: empty-query candidate is not a stored record"); i += 1; }
+    assert!(same_list(&top_live, &top_fresh), "C10/C12: empty-query candidates differ from those of a freshly built store");
+    std::mem::forget(fresh); std::mem::forget(top_live); std::mem::forget(top_fresh);
+}
+
+/// The candidates of ONE query (title number W as a one-word query) only.
+fn agree_query(live: &Store, sh: &Shadow, w: u8) {
+    let fresh = fresh_from(sh);
+    let q = title(w);
+    let p_live = live.index.borrow_mut().prepare(&q.to_ref(), live.limit);
+    let p_fresh = fresh.index.borrow_mut().prepare(&q.to_ref(), fresh.limit);
+    let mut i = 0;
+    while i < p_live.len() { assert!(p_live[i] < sh.n, "C10/C02: query candidate is not a stored record (stale index)"); i += 1; }
+    assert!(same_list(&p_live, &p_fresh), "C10: query candidates differ from those of a freshly built store");
+    std::mem::forget(q); std::mem::forget(p_live); std::mem::forget(p_fresh); std::mem::forget(fresh);
+}
+
+pub fn history_top<const O1: u8, const O2: u8, const O3: u8, const O4: u8, const O5: u8>() {
+    let mut live = new_store();
+    let mut sh = Shadow { recs: [Rec { t: 0, id: 0, rating: 0 }; MAXN], n: 0, limit: live.limit };
+    if O1 != 255 { apply(O1, &mut live, &mut sh); }
+    if O2 != 255 { apply(O2, &mut live, &mut sh); }
+    if O3 != 255 { apply(O3, &mut live, &mut sh); }
+    if O4 != 255 { apply(O4, &mut live, &mut sh); }
+    if O5 != 255 { apply(O5, &mut live, &mut sh); }
+    agree_top(&live, &sh);
+    crate::witness!(true, "end reachable");
+    std::mem::forget(live);
+}
+
+pub fn history_query<const O1: u8, const O2: u8, const O3: u8, const O4: u8, const W: u8>() {
+    let mut live = new_store();
+    let mut sh = Shadow { recs: [Rec { t: 0, id: 0, rating: 0 }; MAXN], n: 0, limit: live.limit };
+    if O1 != 255 { apply(O1, &mut live, &mut sh); }
+    if O2 != 255 { apply(O2, &mut live, &mut sh); }
+    if O3 != 255 { apply(O3, &mut live, &mut sh); }
+    if O4 != 255 { apply(O4, &mut live, &mut sh); }
+    agree_query(&live, &sh, W);
+    crate::witness!(true, "end reachable");
+    std::mem::forget(live);
+}
+
 /// One operation. Codes: 0..=4 add title t; 10 clear; 20+L limit := L; 30 empty-query lookup;
 /// 31/32 lookup for "a"/"b"; 40 change markers.
 fn apply(op: u8, live: &mut Store, sh: &mut Shadow) {
@@ -112,7 +169,7 @@ fn apply(op: u8, live: &mut Store, sh: &mut Shadow) {
             sh.recs[sh.n] = r;
             sh.n += 1;
         }
-        10 => { live.clear(); sh.n = 0; }
+        10 => { live.clear(); live.index.borrow_mut().verif_presize(MAXN); sh.n = 0; }
         20..=29 => { live.limit = (op - 20) as usize; sh.limit = (op - 20) as usize; }
         30 => { let v = live.verif_top_ixs(); std::mem::forget(v); }
         31 | 32 => {
@@ -228,4 +285,14 @@ cases! {
     st_h_add_clear_clear_add = history::<0, 10, 10, 1, 255>();
     st_h_add_clear_top_add = history::<0, 10, 30, 1, 255>();
     st_h_e_add_top = history::<4, 0, 30, 255, 255>();
+    // slim variants
+    st_ht_add = history_top::<0, 255, 255, 255, 255>(); st_ht_add_add = history_top::<0, 1, 255, 255, 255>();
+    st_ht_add_top_add = history_top::<0, 30, 1, 255, 255>(); st_ht_top_add = history_top::<30, 0, 255, 255, 255>();
+    st_ht_add_top_clear_add = history_top::<0, 30, 10, 1, 255>(); st_ht_add_add_l1_top_l2 = history_top::<0, 1, 21, 30, 22>();
+    st_ht_add_add_l2_top_l1 = history_top::<0, 1, 22, 30, 21>(); st_ht_add_clear_add = history_top::<0, 10, 1, 255, 255>();
+    st_ht_add_mark_top_add = history_top::<0, 40, 30, 1, 255>(); st_ht_add_top_top = history_top::<0, 30, 30, 255, 255>();
+    st_hq_add_qa = history_query::<0, 255, 255, 255, 0>(); st_hq_add_add_qb = history_query::<0, 1, 255, 255, 1>();
+    st_hq_add_clear_add_qa = history_query::<0, 10, 1, 255, 0>(); st_hq_add_clear_qa = history_query::<0, 10, 255, 255, 0>();
+    st_hq_add_qa_add_qa = history_query::<0, 31, 0, 255, 0>(); st_hq_add_clear_add_qb = history_query::<0, 10, 1, 255, 1>();
+    st_hq_ab_ba_qa = history_query::<2, 3, 255, 255, 0>();
 }
